@@ -659,7 +659,7 @@ func (ex *exec) unop(fr *frame, instr *ssa.UnOp, x value) value {
 
 // typeAssert checks whether dynamic type of itf is instr.AssertedType.
 func (ex *exec) typeAssert(instr *ssa.TypeAssert, x value) value {
-	itf := x.(iface)
+	itf := ex.force(x.(iface))
 	var v value
 	err := ""
 	if itf.t == nil {
